@@ -313,7 +313,7 @@ def helper_cases(draw):
                 "product_name": draw(st.text(alphabet=st.characters(min_codepoint=32, max_codepoint=255), min_size=1, max_size=30).filter(lambda s: not s.startswith("2080")))}
     tmax = 253_402_300_799_000_000
     clock = st.one_of(st.integers(0, tmax), st.sampled_from([0, 1, 999_999, 1_000_000, 1_600_000_000_123_456, tmax]))
-    return {"identity": ident(), "module": ident(), "slot": draw(st.integers(1, 16)), "plc_name": draw(st.text(alphabet="ABCxyz_019 ", max_size=20)),
+    return {"identity": ident(), "module": ident(), "slot": draw(st.one_of(st.integers(1, 16), st.integers(1, 255))), "plc_name": draw(st.text(alphabet="ABCxyz_019 ", max_size=20)),
             "clock0": draw(clock), "clock1": draw(clock), "tz": draw(st.sampled_from(["UTC0", "UTC0", "EST5", "CET-1", "NPT-5:45", "AEST-10AEDT"]))}
 
 
